@@ -62,6 +62,11 @@ func runListen(n int, udpFail, tcpFail string, stopMs int) string {
 			// (here: lan-a = 127.0.0.1 and ::1, so this one entry becomes four listeners)
 			host = "lan-a"
 		}
+		if udpFail[i] == '4' || tcpFail[i] == '4' {
+			// a NAME the hosts file maps to two addresses, one of them not assigned to this host (an interface that is
+			// down, IPv6 switched off): two of its four listeners cannot bind - the start must fail like any other
+			host = "lan-b"
+		}
 		addrs[i] = host + ":" + strconv.Itoa(port)
 		if udpFail[i] == '1' {
 			if c, err := net.ListenPacket("udp", addrs[i]); err == nil {
@@ -83,7 +88,7 @@ func runListen(n int, udpFail, tcpFail string, stopMs int) string {
 	stopped := false
 	var clients []net.Conn
 	if stopMs >= 0 {
-		if stopMs >= 40 && !strings.ContainsAny(udpFail+tcpFail, "123") {
+		if stopMs >= 40 && !strings.ContainsAny(udpFail+tcpFail, "1234") {
 			// every listener is up by now: clients connect over TCP and STAY connected (one has had a query
 			// answered, the others are idle) while the service is stopped - the normal state of a running daemon
 			time.Sleep(time.Duration(stopMs-15) * time.Millisecond)
@@ -128,9 +133,13 @@ func runListen(n int, udpFail, tcpFail string, stopMs int) string {
 		if udpFail[i] == '2' || tcpFail[i] == '2' {
 			continue // cannot be bound by anybody
 		}
-		if udpFail[i] == '3' || tcpFail[i] == '3' {
+		if udpFail[i] == '3' || tcpFail[i] == '3' || udpFail[i] == '4' || tcpFail[i] == '4' {
 			port := a[strings.LastIndex(a, ":")+1:]
-			for _, ra := range []string{"127.0.0.1:" + port, "[::1]:" + port} {
+			ras := []string{"127.0.0.1:" + port, "[::1]:" + port}
+			if udpFail[i] == '4' || tcpFail[i] == '4' {
+				ras = ras[:1] // the other address of lan-b cannot be bound by anybody
+			}
+			for _, ra := range ras {
 				if c, err := net.ListenPacket("udp", ra); err != nil {
 					rebind = "busy"
 				} else {
@@ -282,7 +291,11 @@ func init() {
 		r := NewRng(c.seed)
 		// the hosts file ListenAndServe resolves listen names through
 		hf := filepath.Join(c.dir, "listen-hosts")
-		_ = os.WriteFile(hf, []byte("127.0.0.1 localhost lan-a\n::1 lan-a\n"), 0644)
+		hostsText := "127.0.0.1 localhost lan-a\n::1 lan-a\n"
+		if notAvailWorks() {
+			hostsText += "127.0.0.1 lan-b\n" + notAvailHost(false) + " lan-b\n"
+		}
+		_ = os.WriteFile(hf, []byte(hostsText), 0644)
 		discovery.VerifSetHostsFiles([]string{hf})
 		burst := func(n, rounds, rep int) {
 			c.Emit(fmt.Sprintf("listenburst %d %d %d", n, rounds, rep), runListenBurst(n, rounds))
@@ -295,7 +308,7 @@ func init() {
 			if stop >= 0 {
 				c.Stat("kind:stop")
 			}
-			if strings.ContainsAny(uf+tf, "12") {
+			if strings.ContainsAny(uf+tf, "124") {
 				c.Stat("kind:bindfail")
 			}
 		}
@@ -349,11 +362,19 @@ func init() {
 					c.Stat("kind:named-address")
 				}
 			}
+			if notAvailWorks() && r.Chance(8) {
+				j := r.Intn(n)
+				if uf[j] == '0' && tf[j] == '0' && j != 3 {
+					uf = uf[:j] + "4" + uf[j+1:]
+					tf = tf[:j] + "4" + tf[j+1:]
+					c.Stat("kind:named-address-partly-unavailable")
+				}
+			}
 			stop := -1
 			if r.Chance(40) {
 				stop = r.Pick([]int{0, 0, 1, 2, 5, 20, 50, 60, 80})
 			}
-			if stop < 0 && !strings.ContainsAny(uf+tf, "12") {
+			if stop < 0 && !strings.ContainsAny(uf+tf, "124") {
 				// nothing would ever end serving: make exactly one listener fail (not one of a named address)
 				j := strings.IndexByte(uf, '0')
 				switch {
